@@ -16,6 +16,9 @@ CBCH Mobile Allocation until SI1; gsm48_decode_sysinfo1 sets si1 and re-decodes 
 gsm48_decode_sysinfo1 + gsm48_decode_sysinfo4 on one struct gsm48_sysinfo (mode "hist" of charness/c20_si4.c; decode_freq_list stubbed:
 installs the given cell allocation; the member behind si4_msg poisoned), histories [SI1, A], [A, SI1], [SI1, A, B], [A, SI1, B], [A, B, SI1];
 oracle: after SI1 and an SI4 with a complete IE inside the first 23 octets the list is the specified one, whatever the order (key c20-si4-si1-order).
+The assignment messages (Model/MobAllocAss.v, Proofs/MobAllocAssP.v): the guards and the memcpy 'message -> cd_now.mob_alloc_lv' of gsm48_rr_rx_imm_ass /
+gsm48_rr_rx_imm_ass_ext, composed with render_ma.  Tie: w_c20_assign against the verbatim handlers (mode "assign" of charness/c20_si4.c), observing
+cd_now.mob_alloc_lv and the list gsm48_rr_render_ma produces for gsm48_rr_dl_est; oracle keys c20-assign-mob-alloc-copy / c20-assign-list / c20-assign-guard.
 The former defect (the length octet of the CBCH Mobile Allocation IE read behind a message that ends with the tag 0x72, fixed in
 /repo d574cef) stays in the oracle under the key c20-si4-ma-length-octet-overread."""
 import json
@@ -582,6 +585,92 @@ def render_spec_py(c):
     return ("n0" if not sel else "n64" if len(sel) == 64 else "n+", l), [101 if not sel else 0] + exp[1:]
 
 
+# ------------------------------------------------------------------ immediate assignment: message -> mob_alloc_lv -> L1
+
+def mk_assign(limit, ours, h, hl0, hfill, bg, tl, table, kind):
+    return dict(path="assign", limit=limit, ours=ours, h=h, hl0=hl0, hfill=hfill, bg=bg, tl=list(tl), table=dict(table), kind=kind,
+                msg="IMMEDIATE ASSIGNMENT" if limit == 8 else "IMMEDIATE ASSIGNMENT EXTENDED",
+                ref={0: "no request reference is ours", 1: "request reference 1 is ours" if limit == 4 else "the request reference is ours",
+                     2: "request reference 2 is ours"}.get(ours, "?"))
+
+
+def line_of_assign(c):
+    a = [c["limit"], c["ours"], c["h"], c["hl0"], c["hfill"], c["bg"], len(c["tl"])] + c["tl"]
+    for k in sorted(c["table"]):
+        a += [k, c["table"][k]]
+    return " ".join(map(str, a))
+
+
+def assign_of_line(line, kind):
+    a = [int(x) for x in line.split()]
+    n = a[6]
+    rest = a[7 + n:]
+    t = {rest[i]: rest[i + 1] for i in range(0, len(rest) - 1, 2)}
+    return mk_assign(a[0], a[1], a[2], a[3], a[4], a[5], a[7:7 + n], t, kind)
+
+
+def show_assign(c):
+    ca = [a for a, m in enumerate(masks_of(c)) if m & 1]
+    return dict(path="assign", kind=c["kind"], message=c["msg"], reference=c["ref"], hopping_channel=bool(c["h"]),
+                from_mob_alloc_len_on=" ".join("%02x" % b for b in c["tl"]), hl0=c["hl0"], hfill=c["hfill"],
+                cell_alloc=ca if len(ca) <= 80 else ca[:80] + ["...(%d)" % len(ca)], line=line_of_assign(c))
+
+
+def gen_assign_cases(rng, n):
+    cases = []
+    for k in range(n):
+        t, bg, nca = _rand_table(rng)
+        limit = 4 if k % 2 else 8
+        ours = rng.choice([1, 1, 1, 0]) if limit == 8 else rng.choice([1, 2, 2, 2, 0])
+        shape = rng.choice(["ok", "ok", "ok", "ok", "ok", "large", "short", "none"])
+        h = 1
+        if shape == "ok":
+            l = rng.range(0, limit)
+            if l == 0:
+                h = 0                              # hopping without a Mobile Allocation takes the other branches of gsm48_rr_render_ma (not modelled)
+            elif rng.chance(1, 8):
+                h = 0
+            v = _rand_bitmap(rng, l, nca)
+            if l and rng.chance(1, 3):             # make sure the LAST octet (cell-allocation indexes 0..7) and the FIRST octet carry bits
+                v[-1] |= 1 << rng.below(8)
+                v[0] |= 1 << rng.below(8)
+            tl = [l] + v + rng.choice([[], [0x7C, rng.below(256), rng.below(256)], [rng.below(256) for _ in range(rng.range(1, 4))]])
+        elif shape == "large":
+            l = rng.choice([limit + 1, limit + 2, 9, 9, 17, 200, 255])
+            l = max(l, limit + 1)
+            tl = [l] + [rng.below(256) for _ in range(rng.choice([l, l, l + 3, 8]))]
+        elif shape == "short":
+            l = rng.range(1, limit)
+            tl = [l] + _rand_bitmap(rng, l, nca)[:rng.range(0, l - 1)]
+        else:
+            tl = []
+        cases.append(mk_assign(limit, ours, h, rng.choice([0, 1, 63, 64]), rng.choice([0, 7, 1000, 65500]), bg, tl, t, "assign " + shape))
+    bad = [mk_assign(5, 1, 1, 0, 0, 0, [1, 1], {}, "malformed"), mk_assign(8, 1, 1, 0, 0, 0, [256], {}, "malformed"),
+           mk_assign(8, 1, 1, 256, 0, 0, [1, 1], {}, "malformed")]
+    return cases + bad
+
+
+def assign_spec_py(c):
+    """44.018 9.1.18 / 9.1.19 + 10.5.2.21 on one message: (class, expected observation rc est lv[9] [cause ma_len ma[64] flags])"""
+    tl, limit = c["tl"], c["limit"]
+    untouched = [170] * 9
+    hop0 = [(c["hfill"] + j) % 65536 for j in range(64)]
+    if not tl or tl[0] > len(tl) - 1:
+        return "short", [-22, 0] + untouched
+    l = tl[0]
+    if l > limit:
+        return "too-large", [-22, 0] + untouched
+    if not c["ours"]:
+        return "not-ours", [0, 0] + untouched
+    v = tl[1:1 + l]
+    lv = [l] + v + [0] * (8 - l)
+    if not c["h"]:
+        return "non-hopping", [0, 1] + lv + [0, 0] + hop0
+    e = spec(dict(c, si4=0, len=l, ma=v, kind="assign"))
+    exp, sel, ca = e
+    return ("list-empty" if not sel else "list"), [0, 1] + lv + [101 if not sel else 0] + exp[1:]
+
+
 # ------------------------------------------------------------------ histories: SI4 stored, re-decoded at SI1
 
 def mk_hist(pos, hl0, hfill, bg, bfill, A, B, table, kind):
@@ -794,6 +883,41 @@ def run_callers(ctx, replay_case):
             ctx.nontrivial(("render",) + cls)
     elif replay_case is None:
         ctx.count("render:not-executed")
+    # ---- IMMEDIATE ASSIGNMENT / IMMEDIATE ASSIGNMENT EXTENDED: message -> cd_now.mob_alloc_lv -> list at the L1 boundary
+    if replay_case is not None:
+        ac = [assign_of_line(replay_case["line"], replay_case.get("kind", "replay"))] if replay_case.get("path") == "assign" else []
+    else:
+        ac = gen_assign_cases(rng, 1200 if quick else 12000) if _SI4.get("assign") else []
+    if ac:
+        al = [line_of_assign(c) for c in ac]
+        aimpl, areport = run_impl(binp, al, args=("assign",))
+        aidx = list(range(len(ac)))
+        ctx.correspond("imm-ass-mob-alloc", "MobAlloc", aidx, lambda k: "w_c20_assign " + al[k], lambda k: aimpl[k], show=lambda k: show_assign(ac[k]))
+        for k, c in enumerate(ac):
+            o = aimpl[k]
+            if c["kind"] == "malformed":
+                if o != [-999]:
+                    fail("assignment harness accepted a malformed line", show_assign(c), key="c20-harness-malformed", expected=[-999], observed=o)
+                continue
+            cls, exp = assign_spec_py(c)
+            ctx.count("assign:" + cls)
+            if o and o[0] in CODES:
+                fail("%s handler / gsm48_rr_render_ma: %s" % (c["msg"], CODES[o[0]]), dict(show_assign(c), sanitizer=areport.get(k, "")),
+                     key="c20-assign-memory", expected=exp[:11], observed=o)
+                continue
+            if o != exp:
+                if o[:2] != exp[:2]:
+                    key, what = "c20-assign-guard", "%s: accepted / refused against the length octet of the Mobile Allocation" % c["msg"]
+                elif o[2:11] != exp[2:11]:
+                    key, what = "c20-assign-mob-alloc-copy", ("%s (%s): cd_now.mob_alloc_lv is not the length octet + the value octets of the "
+                                                              "Mobile Allocation in the message" % (c["msg"], c["ref"]))
+                else:
+                    key, what = "c20-assign-list", ("%s (%s): the hopping list handed to L1 is not the one specified by the Mobile Allocation in "
+                                                    "the message and the cell allocation" % (c["msg"], c["ref"]))
+                fail(what, show_assign(c), key=key, expected=exp[:11 + 10], observed=o[:11 + 10])
+            ctx.nontrivial(("assign", cls, c["limit"], c["ours"], c["h"], c["tl"][0] if c["tl"] else None))
+    elif replay_case is None:
+        ctx.count("assign:not-executed")
     # ---- histories of SI4 and SI1
     if replay_case is not None:
         hc = [hist_of_line(replay_case["line"], replay_case.get("kind", "replay"))] if replay_case.get("path") == "hist" else []
@@ -971,5 +1095,7 @@ def run(ctx):
                          "a previous ma_len <= 64) x the bitmap kinds; histories [SI1, A], [A, SI1], [SI1, A, B], [A, SI1, B], [A, B, SI1] of SI4 messages "
                          "(23-octet BCCH shape / shorter / longer than si4_msg, also with the IE starting in the last octets of the stored copy / cut / without IE / noise, arbitrary fixed part) and one SI1 (cell allocation "
                          "installed by the stubbed decode_freq_list) on one struct with si4_msg pre-filled (0, 0x2b, 0x72, 0x64, random) and its "
-                         "successor member poisoned; caller classes = (path, channel description, length octet, complete / cut in IE / "
+                         "successor member poisoned; IMMEDIATE ASSIGNMENT / IMMEDIATE ASSIGNMENT EXTENDED messages (our request reference none / 1 / 2, hopping and "
+                         "non-hopping channel descriptions, Mobile Allocation length 0..limit with bits forced into the first and the last octet, lengths the guards "
+                         "must refuse, IE cut short, no length octet, starting-time IE or noise behind) through the real handlers up to the L1 boundary; caller classes = (path, channel description, length octet, complete / cut in IE / "
                          "cut after tag / cut in channel description / no IE, SI1, list empty / full)")
